@@ -133,6 +133,7 @@ Proof.
         -- destruct (Ha0 eq_refl) as [x' [Hx _]].
            destruct (seg_head r (z :: pre) (z :: cur)) as [t [rest E]]; [discriminate|].
            rewrite E in Hseg'. cbn [app] in Hseg'. injection Hseg' as Hu' Hb.
+           pose proof Hu' as Hu0.
            rewrite Hu, Hx in Hu'. cbn [rev] in Hu'. rewrite <- !app_assoc in Hu'.
            apply app_inv_head in Hu'. cbn [app] in Hu'.
            destruct x' as [|x1 x''].
@@ -148,7 +149,7 @@ Proof.
            ++ cbn [app] in Hu'. injection Hu' as Hx1 Ht. subst x1.
               apply (IH (z :: pre) (z :: cur) pre0 [] u b x y); auto.
               ** rewrite Hpre. reflexivity.
-              ** rewrite E. cbn [app]. now rewrite Hb.
+              ** rewrite E. cbn [app]. f_equal; [exact Hu0|exact Hb].
               ** intros _. exists x''. split; [|intros; discriminate].
                  rewrite Hx. cbn [rev]. now rewrite <- app_assoc.
 Qed.
